@@ -9,6 +9,7 @@ import (
 	"net/http"
 	"net/http/httptest"
 	"net/url"
+	"runtime"
 	"strings"
 	"sync"
 	"time"
@@ -84,8 +85,8 @@ func clamp30(x int64) int {
 	return int(x)
 }
 
-func deadlineCase(c map[string]interface{}) map[string]interface{} {
-	out := map[string]interface{}{}
+func deadlineCase(c map[string]interface{}) (out map[string]interface{}) {
+	out = map[string]interface{}{}
 	for k, v := range c {
 		out[k] = v
 	}
@@ -231,6 +232,7 @@ func propCase(c, out map[string]interface{}) map[string]interface{} {
 		if err == nil {
 			st.CloseSend()
 			_ = st.RecvMsg(&gt.Message{})
+			runtime.KeepAlive(st)
 		}
 	}
 	p.mu.Lock()
